@@ -25,10 +25,6 @@ known("KF2-spurious-negative-cycle-subcycle-under-negation", SEMP,
       "0.3::a :- \\+r. p :- p. r :- r. r :- \\+p. query(a).   (expected P(a)=0, no cycle through negation)",
       match_any=[{"clause": c, "error": "NegativeCycle", "chain": "createCycle<notify_cycle<cycleDetected"}
                  for c in ["negative-cycle-on-stratified"] + REL[1:]])
-known("KF3-toplevel-repeated-variable-query", SEMP + ["C14"],
-      "a top-level query with a repeated variable, e.g. query(p(W,W)), reports answers that are not instances of the query (p(c1,c3)): eval_clause discards the substitution returned by unify_call_head, and top-level results are not unified back against the query pattern",
-      "d(c1). d(c2). d(c3). p(Y,c3) :- d(Y). query(p(W,W)).   (reports p(c1,c3), p(c2,c3), p(c3,c3); only p(c3,c3) is an instance)",
-      match_any=[{"clause": c, "repeated_var_query": True} for c in ["spurious-answer", "prob", "missing-instance"]])
 known("KF4-negative-self-loop-answered-when-goal-is-cycle-root", SEMP,
       "a goal that is both on a positive cycle and on a cycle through negation is answered (probability 0) instead of rejected: when the negated re-entry happens after the goal became a cycle root, no NegativeCycle is raised",
       "0.4::a; 0.5::b. p(X) :- r(X). q :- p(X), b. q :- \\+q. r(Y) :- q. r(Y) :- a. query(q).   (q undefined in every world; reported q: 0)",
@@ -133,10 +129,6 @@ known("KF15b-all3-eliminates-duplicates", ["C19"],
       "all/3 lists a solution that holds in several ways once (it behaves like YAP's all/3, as docs/source/modeling_basic.rst says of findall); the property asks for Prolog's findall list with duplicates, minus the empty list. findall/3 itself keeps duplicates on the pinned tree",
       "0.2::g(c). 0.7::g(c). w(L) :- all(X, g(X), L). query(w(_)).  reports w([c]) 0.76; with duplicates: w([c]) 0.62, w([c,c]) 0.14",
       match={"clause": "findall-duplicates-merged", "mode": "seq", "kind": "all"})
-known("KF3b-toplevel-repeated-variable-query-deterministic", ["C13"],
-      "same defect as KF3 on deterministic programs: engine.query(db, p(X,X)) returns answers that are not instances of the query",
-      "p(2,Y). ?- p(X,X).  returns p(2,_) instead of p(2,2)",
-      match_any=[{"clause": c, "repeated_var_query": True} for c in ["answer-set", "answer-multiplicity", "spurious-answer", "prob", "missing-instance"]])
 fixed("FX13-clauseindex-order", ["C13"], "d48c419", "ClauseIndex.find returned candidate clauses out of program order (variable-bucket clauses after constant-bucket ones) and permanently merged buckets", "p(_,1). p(a,2). p(b,3). p(_,4).  engine.query(db, p(a,N)) tried clauses in the order 2,1,4")
 known("KF16-is-list-accepts-partial-lists", ["C16"],
       "is_list/1 succeeds on a partial list (unbound tail); in Prolog is_list/1 is true only for proper lists. The repository's own test (test/00_builtins.pl, is_list_002) pins this behaviour, so it cannot be repaired without editing the test suite",
@@ -186,6 +178,10 @@ known("KF26-bn-export-drops-or-misroutes-variables", ["C31"],
       "the exported network can lack the variable of a queried probabilistic fact that is also used in a rule body with other variables, and can contain a directed cycle between a head variable and its choice variable when two annotated disjunctions share head atoms",
       "0.1::h(c2). d(c1). d(c2). s :- d(X), h(Y). query(h(c2)). query(s).  (network has only c0 and s);  0.2::e; 0.2::d; 0.2::c; 0.2::a. 0.3::e; 0.3::a. q :- a, d. query(q).  (cycle a <-> c0)",
       match_any=[{"clause": "query-variable-missing"}, {"clause": "network-cyclic"}, {"clause": "network-not-well-formed"}])
+known("KF36-bn-export-ad-head-in-conjunction", ["C31"],
+      "when a head of a body-free annotated disjunction is used in a rule body together with another literal (q :- v, e.) and alone elsewhere (r :- e.), the exported network conditions the AD's choice variable on the other literal (Factor (c0 | v)) and loses the clause that uses the head alone: marginals change",
+      "0.5::v. 0.1::d; 0.2::e; 0.1::c; 0.6::b. q :- v, e. q :- v. r :- e. r :- v, b. s :- b. query(q). query(r). query(s).  (problog bn: P(r) = 0.3, exact 0.5)",
+      match={"clause": "marginal-differs", "has_ad": True, "ad_head_in_conj": True})
 known("KF27-unbuffered-modes-wrong-answers-on-cycles", ["C04"],
       "on programs with (positive) cycles the unbuffered / random-order modes can lose answers or report different probabilities than the default engine (besides the errors of KF5/KF6): results of a cycle are forwarded before the cycle is closed",
       "0.3::f. 0.1::g. ... cyclic non-ground program, documented random order: q(c1,c2) (P = 0.16) is not reported (replay: ./check C04 --seed 2)",
@@ -250,6 +246,11 @@ fixed("FX24-negated-number-head-typeerror", ["C17", "C27"], "882979b",
 fixed("FX25-empty-parentheses", ["C17", "C27"], "0e7858e",
       "parsing '().' raised a bare Exception ('Unknown type: None') in build_program; 'a :- ().' and 'a(()).' produced clauses containing None",
       "list(PrologString('().'))")
+fixed("FX26-repeated-variable-call-loses-head-bindings", ["C01", "C13", "C14", "C31"], "62d251a",
+      "eval_clause ignored the substituted context returned by unify_call_head: for a call with a repeated variable (q(X,X)) and a head q(a,Y) the body ran with Y unbound. "
+      "Top-level query(p(W,W)) reported answers that are not instances of the query (formerly KF3 / KF3b); inside cycles the answers of other clauses were lost: "
+      "0.7::f. 0.1::g. d(a). d(b). q(a,X) :- d(X), g, q(Y,Y). q(X,Y) :- e(X,Y), f. e(a,a). e(a,b). e(b,b). query(q(a,b)). reported 0.07 instead of 0.7",
+      "d(c1). d(c2). d(c3). p(Y,c3) :- d(Y). query(p(W,W)).   (reported p(c1,c3), p(c2,c3), p(c3,c3))")
 fixed("FX1-break-cycles-true-child", ["C01", "C09"], "29bdee9",
       "AssertionError in LogicFormula.get_node(0) from _break_cycles when a disjunction below an evidence node contains the TRUE node",
       "0.1::h(c1). d(c1). d(c2). p(X) :- d(X), r(c1). p(Y) :- d(Y). r(X) :- p(X). r(Y) :- d(Y), h(X). query(p(c1)). evidence(r(c1)).")
